@@ -3,7 +3,7 @@
   proposer slot, the abrupt removal of a proposer and the hard fork.
 -/
 import DymVerif.Lemmas.CoreRoles2
-namespace DymVerif.Core
+namespace DymVerif.Core.Roles
 
 theorem getRa_self {s : St} {id : Nat} {r : Rollapp} (hg : getRa s id = some r) : getRa s r.id = some r := by
   rw [getRa_id hg]; exact hg
@@ -266,4 +266,4 @@ theorem hardForkToLatest_roles {s s' : St} {ra : Nat} (h : RolesCore s) (sp : Su
     · cases e
     · exact hardFork_roles h sp e
 
-end DymVerif.Core
+end DymVerif.Core.Roles
